@@ -17,14 +17,16 @@ Definition smsg := (bool * N * N)%type.
 Inductive kobs :=
 | KSRecv (id len : N) | KCRecv (id len : N)      (* read by the server / the client, body intact *)
 | KSEnd | KCEnd | KSErr | KCErr | KSGarbled | KCGarbled
-| KCSendErr (id : N) | KSSendErr (id : N) | KSTimeout | KCTimeout | KInfra.
+| KCSendErr (id : N) | KSSendErr (id : N) | KSTimeout | KCTimeout | KInfra
+| KNoSockets.   (* plain tokio sockets of that kind do not work in this process: the script decides nothing *)
 
 Definition kobs_eqb (a b : kobs) : bool :=
   match a, b with
   | KSRecv i l, KSRecv i' l' | KCRecv i l, KCRecv i' l' => N.eqb i i' && N.eqb l l'
   | KCSendErr i, KCSendErr i' | KSSendErr i, KSSendErr i' => N.eqb i i'
   | KSEnd, KSEnd | KCEnd, KCEnd | KSErr, KSErr | KCErr, KCErr | KSGarbled, KSGarbled
-  | KCGarbled, KCGarbled | KSTimeout, KSTimeout | KCTimeout, KCTimeout | KInfra, KInfra => true
+  | KCGarbled, KCGarbled | KSTimeout, KSTimeout | KCTimeout, KCTimeout | KInfra, KInfra
+  | KNoSockets, KNoSockets => true
   | _, _ => false
   end.
 
